@@ -96,6 +96,11 @@ def gen_history(rng, ast, sm, packages):
             for t in packages[p]["types"]:
                 if rng.random() < 0.6:
                     extra.append("<%s%s/>" % (t["name"], rng.choice(["", " imp1", " imp2"])))
+            others = [q for q in sorted(packages) if q != p]
+            if others and rng.random() < 0.4:
+                # a type of a package this text does NOT import (an earlier load may have)
+                t = rng.choice(packages[rng.choice(others)]["types"])
+                extra.append("<%s imp3/>" % t["name"])
             lines = ["%%import %s" % p] + extra
             if rng.random() < 0.3:
                 lines = extra + ["%%import %s" % p]
@@ -238,7 +243,7 @@ def run_shard(spec):
     counters = collections.Counter()
     for i in range(spec["lo"], spec["hi"]):
         rng = loadcheck.case_rng(spec["seed"] + 1313, i)
-        ast = gen.gen_schema(rng, section_dts=SECTION_DTS)
+        ast = gen.gen_schema(rng, section_dts=SECTION_DTS, boost=0.35)
         if not ast["abstract"]:
             ast["abstract"].append("abs1")
             ast["items"].append({"kind": "multisection", "name": "*", "attribute": "absslot", "required": False,
@@ -255,6 +260,15 @@ def run_shard(spec):
                      "items": [{"kind": "key", "name": "v", "attribute": None, "required": False,
                                 "handler": None, "datatype": "string", "default": "d"}]}
                 ptypes.append(t)
+            # a component type derived from an application type (re-keying its wildcard defaults)
+            wildbases = [b for b in ast["types"] if any(it["name"] == "+" and it.get("defaults") for it in b["items"])
+                         and not b.get("keytype")]
+            if wildbases and rng.random() < 0.7:
+                b = rng.choice(wildbases)
+                keys = [d[0] for it in b["items"] if it["name"] == "+" for d in it.get("defaults") or []]
+                newkt = "identifier" if all(k.replace("_", "a").isalnum() and not k[0].isdigit() for k in keys) else None
+                ptypes.append({"name": "p%dx" % (p + 1), "keytype": newkt, "datatype": None,
+                               "implements": rng.choice(ast["abstract"]), "extends": b["name"], "items": []})
             packages[pname] = {"abstract": [], "types": ptypes, "imports": []}
         ops = gen_history(rng, ast, sm, packages)
         res.evaluations += 1
